@@ -310,6 +310,14 @@ func importKnown(c ImportCase) string {
 			}
 		}
 	}
+	// C12-import-anonymous-block-placeholder: a bundled file contains an anonymous "@layer {" block
+	for _, src := range c.Files {
+		for _, r := range cssref.Parse(src).Rules {
+			if r.At == "layer" && r.HasBlock && len(strings.TrimSpace(cssref.Serialize(r.Prelude))) == 0 {
+				return "C12-import-anonymous-block-placeholder"
+			}
+		}
+	}
 	// C12-import-prelayer-under-layer: a file with an @layer statement before its imports is reached through a layer(...) import
 	{
 		parsed := map[string]*cssref.Sheet{}
@@ -358,7 +366,6 @@ func importKnown(c ImportCase) string {
 		}
 	}
 	// C12-import-dedupe-across-layers: a file is reached more than once, at least once below a layer(...) import
-	// C12-import-dup-anonymous-block: a file reached more than once contains an anonymous "@layer {" block
 	{
 		parsed := map[string]*cssref.Sheet{}
 		for name, src := range c.Files {
@@ -401,15 +408,6 @@ func importKnown(c ImportCase) string {
 		for _, f := range names {
 			if visits[f] < 2 {
 				continue
-			}
-			anon := false
-			for _, r := range parsed[f].Rules {
-				if r.At == "layer" && r.HasBlock && len(strings.TrimSpace(cssref.Serialize(r.Prelude))) == 0 {
-					anon = true
-				}
-			}
-			if anon {
-				return "C12-import-dup-anonymous-block"
 			}
 			if layered[f] >= 1 {
 				return "C12-import-dedupe-across-layers"
@@ -556,7 +554,7 @@ func importKey(c ImportCase) string {
 
 func runImports(t *testing.T) {
 	H.Rule("import", "rapid: 2–5 CSS files, each with optional leading @layer statements, 0–3 @import rules to random files (self-imports, cycles, diamonds, repeated imports) with optional layer / layer(name) / supports() / media conditions, and 1–3 rules carrying unique z-index markers (plain, in @layer, in @media, anonymous layers, rules shared verbatim between files, !important); api.Build bundle (in-memory plugin) × minify; reference = naive inliner (each @import replaced by the imported sheet wrapped in @media{@supports{@layer{}}}, a file already in the parent chain is skipped) evaluated by cssref: same winners for every element × device × environment and same layer order; non-trivial = a file is reached ≥2 times or a cycle is cut")
-	H.SetupRapid("import", H.N(2000, 100000))
+	H.SetupRapid("import", H.N(2000, 200000))
 	rapid.Check(t, func(rt *rapid.T) {
 		c := genImportCase(rt)
 		v := judgeImport(c)
